@@ -571,7 +571,8 @@ def build(out_path, only=None):
         stem = os.path.basename(p)[:-3]
         em.add('pub mod %s {' % stem)
         em.add('use vstd::prelude::*;\nuse vstd::view::View as SpecView;\nuse std::collections::VecDeque;\n'
-               'use crate::shim::*;\nuse crate::shim::View;\nuse crate::lem::*;\nuse crate::alg::*;\nuse crate::views::*;')
+               'use crate::shim::*;\nuse crate::shim::View;\nuse crate::lem::*;\nuse crate::alg::*;\nuse crate::views::*;\n'
+               'broadcast use {crate::lem::group_lem, crate::shim::group_literals, crate::shim::group_shim};')
         txt = open(p).read()
         base = em.lineno()
         for k, ln in enumerate(txt.split('\n')):
